@@ -408,7 +408,15 @@ def machine_handlers(M: Machine):
         if M.on_state:
             M.on_state(op.state, op, "launch_state")
         vals = tuple(I.get(v) for v in op.values)
-        I.emit("launch", acc, M.snapshot(acc), vals, tuple(sorted(M.written.get(acc, ()))))
+        from xdsl.dialects import scf as _scf
+
+        p, in_loop = op.parent_op(), False
+        while p is not None:
+            if isinstance(p, _scf.ForOp):
+                in_loop = True
+            p = p.parent_op()
+        I.emit("launch", acc, M.snapshot(acc), vals, tuple(sorted(M.written.get(acc, ()))),
+               "launch_in_loop" if in_loop else "launch_outside_loop")
         I.set(op.token, Opaque("token", acc=acc))
 
     def h_await(I, op):
@@ -503,5 +511,5 @@ def compare_launch_traces(t1, t2, fields, oblige):
         written = set(e1[4])
         for f, v1, v2 in zip(names, e1[2], e2[2]):
             if f in written:
-                oblige("launch:register", irsym.term_eq(v1, v2), dict(launch=i, acc=acc, field=f))
+                oblige("launch:register", irsym.term_eq(v1, v2), dict(launch=i, acc=acc, field=f, where=e1[5]))
         oblige("launch:values", irsym.term_eq(e1[3], e2[3]), dict(launch=i, acc=acc))
